@@ -464,3 +464,10 @@ def run(ctx):
               'layer gradient is not distributed to the cells by imat',
               ctx.where(mp, fd))
     ctx.floor('C19.L4.points', 8)
+    # nothing is remembered by the layered computation between calls (rule
+    # of C12, shared): e.g. "are there observed data" is a fact about the
+    # survey NOW
+    from .c12 import rule_new_state
+    rule_new_state(ctx, 'C19.L2.state', only=('_compute_1d',
+                                              '_set_layered_opts', 'compute',
+                                              'gradient', 'misfit'))
